@@ -29,6 +29,22 @@ pub struct CrdtSession {
     pub marked_texts: std::collections::BTreeSet<String>,
 }
 
+/// C04 direct oracle on a change just committed by a non-isolated transaction: "its dependencies are the heads
+/// at the start of the transaction plus the actor's own previous change" — the own previous change (seq - 1 of
+/// the same actor) is among the dependencies, and every dependency is an applied change
+pub fn own_previous_change_oracle(d: &mut AutoCommit, h: &ChangeHash, isolated: bool) -> Option<String> {
+    if isolated { return None; }
+    let c = d.get_change_by_hash(h)?;
+    let all = d.get_changes(&[]);
+    if c.seq() > 1 {
+        let prev = all.iter().find(|x| x.actor_id() == c.actor_id() && x.seq() == c.seq() - 1)?;
+        if !c.deps().contains(&prev.hash()) {
+            return Some(format!("! C04 sig=own-previous-change-not-a-dep change seq {} of actor {} does not depend on the actor's own previous change {}", c.seq(), show_actor(c.actor_id()), hex::encode(prev.hash().0)));
+        }
+    }
+    None
+}
+
 /// signature of a failed delivery that changed the pending queue: a DuplicateSeqNumber error for an
 /// (actor, seq) that an APPLIED change holds is the known finding D4; the same error for a slot held
 /// only by a QUEUED change (or any other error) is a different violation
@@ -434,6 +450,22 @@ fn exec_inner(s: &mut CrdtSession, toks: &[&str], enc: TextEncoding) -> Vec<Stri
                 Ok(mut f) => {
                     let fs = show_doc(&f, None, enc);
                     if fs != st { res.push(format!("! C07 sig=at-vs-fork state at heads differs from fork_at(heads) state")); }
+                    // the range iterators at heads against the same iterators on the fork (values incl. counter totals)
+                    let mut objs: Vec<(String, ObjType)> = vec![("_".into(), ObjType::Map)];
+                    collect_objs(&f, &ROOT, ObjType::Map, &mut objs, 0);
+                    for (o, ty) in objs.iter().take(12) {
+                        let id = parse_exid(o);
+                        let (a, b): (Vec<String>, Vec<String>) = match ty {
+                            ObjType::Map | ObjType::Table => (
+                                d.map_range_at(&id, .., &hs).map(|it| { let v: Value<'static> = it.value.clone().into(); format!("{}={}", it.key, match &v { Value::Scalar(x) => show_scalar(x), Value::Object(t) => format!("{:?}", t) }) }).collect(),
+                                f.map_range(&id, ..).map(|it| { let v: Value<'static> = it.value.clone().into(); format!("{}={}", it.key, match &v { Value::Scalar(x) => show_scalar(x), Value::Object(t) => format!("{:?}", t) }) }).collect()),
+                            ObjType::List => (
+                                d.list_range_at(&id, .., &hs).map(|it| { let v: Value<'static> = it.value.clone().into(); format!("{}={}", it.index, match &v { Value::Scalar(x) => show_scalar(x), Value::Object(t) => format!("{:?}", t) }) }).collect(),
+                                f.list_range(&id, ..).map(|it| { let v: Value<'static> = it.value.clone().into(); format!("{}={}", it.index, match &v { Value::Scalar(x) => show_scalar(x), Value::Object(t) => format!("{:?}", t) }) }).collect()),
+                            ObjType::Text => (vec![], vec![]),
+                        };
+                        if a != b { res.push(format!("! C07 sig=range-at-vs-fork map_range_at / list_range_at of {} at heads gives [{}] but the same range on fork_at(heads) gives [{}]", o, a.join(","), b.join(","))); break; }
+                    }
                     let mut fh = f.get_heads(); fh.sort();
                     let mut want = hs.clone(); want.sort(); want.dedup();
                     if fh != want { res.push("! C07 sig=fork-heads fork_at(heads) does not have the given heads".to_string()); }
@@ -670,9 +702,11 @@ fn exec_inner(s: &mut CrdtSession, toks: &[&str], enc: TextEncoding) -> Vec<Stri
             s.tx_state_snapshots.remove(toks[1]);
             let d = s.replicas.get_mut(toks[1]).unwrap();
             let h = d.commit_with(automerge::transaction::CommitOptions::default().with_time(0));
+            let isolated = s.iso_snap.contains_key(toks[1]);
+            let orc = h.and_then(|h| own_previous_change_oracle(d, &h, isolated));
             // an isolated replica continues from its own commit
-            if let (Some(h), true) = (h, s.iso_snap.contains_key(toks[1])) { s.iso_snap.insert(toks[1].to_string(), vec![h]); }
-            match h { Some(h) => vec!["ok".to_string(), format!("#hash {}", hex::encode(h.0))], None => vec!["none".to_string()] }
+            if let (Some(h), true) = (h, isolated) { s.iso_snap.insert(toks[1].to_string(), vec![h]); }
+            match h { Some(h) => { let mut v = vec!["ok".to_string(), format!("#hash {}", hex::encode(h.0))]; v.extend(orc); v } None => vec!["none".to_string()] }
         }
         // extension engines sharing this session's replicas (each in its own file)
         #[cfg(feature = "e_richtext")]
@@ -1042,7 +1076,12 @@ pub fn local_tx(r: &mut Rng, sess: &mut Session, out: &mut Out, who: &str, known
         out.count("rollbacks");
         return;
     }
-    let res = exec_line(sess, &format!("crdt.commit {}", who), out);
+    // now and then a commit with a message (ASCII and not) and a timestamp
+    let res = if cfg!(feature = "e_doccodec") && r.chance(1, 8) {
+        out.count("commit_with_message");
+        let msg = ["résumé", "提交 ✓", "a–b", "plain ascii", "e\u{301}"][r.below(5) as usize];
+        exec_line(sess, &format!("crdt.dc.commit {} {} {}", who, r.below(1000), hx(msg.as_bytes())), out)
+    } else { exec_line(sess, &format!("crdt.commit {}", who), out) };
     if res[0] == "ok" {
         let d = sess.crdt.replicas.get_mut(&who).unwrap();
         let hh = ChangeHash::try_from(unhx(res[1].strip_prefix("#hash ").unwrap()).as_slice()).unwrap();
@@ -1217,6 +1256,25 @@ pub fn generate_storage(r: &mut Rng, opts: &BTreeMap<String, String>, sess: &mut
         exec_line(sess, &format!("crdt.loadcut wf ignore f {}", file.len()), out);
         let stf = exec_line(sess, "crdt.state wf", out);
         if stf[0] != stw[0] { out.count("oracle_failures"); out.line("! C12 sig=concat-differs loading the whole concatenation differs from the writer's in-memory document"); }
+        // OVERLAPPING pieces in one buffer: the file followed by everything after its first boundary once more
+        // (every later change occurs twice in the same load / load_incremental call)
+        if r.chance(1, 2) {
+            let mut g = file.clone();
+            g.extend(&file[exp[0].0..]);
+            let final_digest = exp.last().map(|x| x.1.clone()).unwrap_or_default();
+            exec_line(sess, &format!("crdt.file g {} {}:{}", hx(&g), g.len(), final_digest), out);
+            exec_line(sess, &format!("crdt.loadcut wg error g {}", g.len()), out);
+            if sess.crdt.replicas.contains_key("wg") {
+                let stg = exec_line(sess, "crdt.state wg", out);
+                if stg[0] != stw[0] { out.count("oracle_failures"); out.line("! C12 sig=overlap-concat-differs loading a concatenation in which later pieces occur twice differs from the writer's document"); }
+            } else { out.count("oracle_failures"); out.line("! C12 sig=overlap-concat-rejected a concatenation in which later pieces occur twice does not load"); }
+            exec_line(sess, &format!("crdt.new rd2 {} {}", enc, hex::encode(r.bytes(3))), out);
+            exec_line(sess, &format!("crdt.loadpiece rd2 f 0 {}", exp[0].0), out);
+            let res = exec_line(sess, &format!("crdt.loadpiece rd2 g {} {}", exp[0].0, g.len()), out);
+            let st3 = exec_line(sess, "crdt.state rd2", out);
+            if !res[0].starts_with("ok") || st3[0] != stw[0] { out.count("oracle_failures"); out.line("! C12 sig=overlap-catch-up-differs a reader fed ONE buffer holding every later piece twice does not become equal to the writer"); }
+            out.count("c12_overlapping_pieces");
+        }
     }
     // single-bit flips
     let nbits = file.len() * 8;
